@@ -176,11 +176,14 @@ Fixpoint list_eqb {X} (eqb : X -> X -> bool) (a b : list X) : bool :=
      ndarray    : send((shape,dtype)), Send(data)                / bcast(type), bcast((shape,dtype)), Bcast
      Field      : send((domain,type(val))), _send(val) [1 msg]   / bcast(type), bcast((dom,dtype)), _bcast(val) [2]
      MultiField : _send(keys), then one Field per key            / bcast(type), bcast(keys), one Field each *)
-Inductive vtype := TOther | TNdarray | TField | TMulti (k : nat).
+Inductive vtype := TOther | TNdarray | TField | TMulti (k : nat) | TNd0 (single : bool).
+(* TNd0: 0-d arrays.  They travel like arrays (2 messages), but the sum of two of them is a NumPy
+   scalar, so the total is broadcast like "other" (2 collectives) unless there is a single summand. *)
 Definition nmsgs (t : vtype) : nat :=
-  match t with TOther => 1 | TNdarray => 2 | TField => 2 | TMulti k => 1 + 2 * k end.
+  match t with TOther => 1 | TNdarray => 2 | TField => 2 | TMulti k => 1 + 2 * k | TNd0 _ => 2 end.
 Definition nbcast (t : vtype) : nat :=
-  match t with TOther => 2 | TNdarray => 3 | TField => 4 | TMulti k => 2 + 4 * k end.
+  match t with TOther => 2 | TNdarray => 3 | TField => 4 | TMulti k => 2 + 4 * k
+             | TNd0 single => if single then 3 else 2 end.
 
 Definition comm_ok (part : list nat) (t : vtype) (obs : list (list (nat * nat))) : bool :=
   list_eqb (list_eqb pair_eqb)
